@@ -886,6 +886,20 @@ pub fn parent_main(prop: &dyn Property, tier: Tier) -> i32 {
         }
     }
 
+    // ---- 3b. thorough tier: coverage-guided stage (libFuzzer + AddressSanitizer)
+    let mut fuzz_evidence = json!({"status": "not part of the quick tier"});
+    let mut fuzz_runs = 0u64;
+    if tier == Tier::Thorough {
+        if std::env::var_os("VERIF_NO_FUZZ").is_some() {
+            fuzz_evidence = json!({"status": "skipped (VERIF_NO_FUZZ set)"});
+        } else {
+            let r = crate::fuzzstage::run(prop, tier, seed, nworkers, &known, &mut violations, &mut known_hits, &mut inconclusive, &scratch);
+            fuzz_evidence = r.evidence;
+            fuzz_runs = r.runs;
+            execs += r.execs;
+        }
+    }
+
     // label floors
     for (l, floor) in prop.label_floors() {
         let share = *labels.get(l).unwrap_or(&0) as f64 / cases.max(1) as f64;
@@ -926,7 +940,10 @@ pub fn parent_main(prop: &dyn Property, tier: Tier) -> i32 {
         "seed": seed as i64,
         "level": prop.level(),
         "coverage": {
-            "evaluations": cases + replayed,
+            "evaluations": cases + replayed + fuzz_runs,
+            "generated_by_proptest": cases,
+            "generated_by_libfuzzer": fuzz_runs,
+            "libfuzzer_stage": fuzz_evidence,
             "real_code_executions": execs,
             "distinct_nontrivial": nontrivial.len(),
             "rule": prop.rule(),
@@ -979,6 +996,29 @@ pub fn replay_main(prop: &dyn Property, file: &Path) -> i32 {
         println!("decoded: {}", serde_json::to_string_pretty(&prop.describe(&bytes)).unwrap());
     } else {
         println!("decoded (saved with the replay): {}", serde_json::to_string_pretty(&j["decoded"]).unwrap());
+    }
+    if j["engine"].as_str() == Some("libfuzzer") {
+        // a finding that only the sanitizer build shows
+        return match crate::fuzzstage::replay(prop, &bytes) {
+            Err(e) => {
+                println!("INCONCLUSIVE property={} {}", prop.id(), e);
+                2
+            }
+            Ok(None) => {
+                println!("pass (sanitizer build)");
+                0
+            }
+            Ok(Some(f)) => {
+                if load_known(prop.id()).iter().any(|k| k.sig == f.sig) {
+                    println!("KNOWN-FINDING: property={} sig={}", prop.id(), f.sig);
+                    0
+                } else {
+                    println!("VIOLATION property={} replay={}", prop.id(), file.display());
+                    println!("clause={} sig={}\n{}", f.clause, f.sig, f.detail);
+                    1
+                }
+            }
+        };
     }
     let out = run_replay_json(prop, &j, tier);
     match out.verdict {
